@@ -17,7 +17,7 @@ add("C03", "exploration", "property-based differential testing against an indepe
     "Trusted base: harness/ref/rtpwire (my reading of the RFCs; two-byte profile = 0x1000 exactly as the library documents). Accept-set questions outside well-formed images are not asserted.",
     "DESIGN.md 4/C03")
 add("C04", "exploration", "property-based testing (rapid) of MarshalTo against Marshal over generated packets x destination lengths x dirty buffers",
-    "For generated packets, destination lengths around every threshold and dirty prior contents: short buffers must give io.ErrShortBuffer with n=0, sufficient ones exactly Marshal()'s bytes with everything beyond untouched; same for Header.MarshalTo.",
+    "For generated packets, destination lengths around every threshold and dirty prior contents: short buffers must give io.ErrShortBuffer with n=0, sufficient ones exactly Marshal()'s bytes with everything beyond untouched (also into spare capacity, and written back in place over the image the packet was decoded from after editing fields, padding, or extensions); same for Header.MarshalTo.",
     "Trusted base: Marshal() as reference for MarshalTo (Marshal itself is checked against the independent parser in C01).",
     "DESIGN.md 4/C04")
 add("C05", "exploration", "model-based stateful property testing (rapid-drawn operation sequences against an ordered-map model, with a wire round trip as an operation)",
@@ -30,11 +30,11 @@ add("C20", "exploration", "property-based metamorphic testing (rapid): clone equ
     "DESIGN.md 4/C20")
 
 add("C06", "exploration", "model-based stateful property testing (rapid-drawn Packetize/SkipSamples/GeneratePadding histories, payloader spy, injected clock)",
-    "Histories of packetizer calls over eleven payloaders (plus a scripted stub) are checked against a sequence/timestamp model with learned initial values; payloads must equal the spied fragments, fixed fields, marker and the abs-send-time value (exact 6.18 encoding of an injected instant) are checked, every packet must fit the MTU and survive marshal/parse, padding packets must be valid padding-only RTP.",
-    "Needs the build-tag hook VerifSetPacketizerClock to inject the clock; the payloader's own output is trusted here (C08, C10-C14 check it); MTU bound is not asserted for padding packets or Opus payloads larger than the budget.",
+    "Histories of packetizer calls over eleven payloaders (plus a scripted stub) are checked against a sequence/timestamp model with learned initial values; payloads must equal the spied fragments, fixed fields, marker and the abs-send-time value (exact 6.18 encoding of an injected instant) are checked, every packet must fit the MTU and survive marshal/parse, padding packets must be valid padding-only RTP; every packet returned earlier must still serialise to the same bytes at the end of the history.",
+    "Needs the build-tag hook VerifSetPacketizerClock to inject the clock (one case in eight leaves the default clock and brackets the value between two readings of the wall clock); the payloader's own output is trusted here (C08, C10-C14 check it); MTU bound is not asserted for padding packets or Opus payloads larger than the budget.",
     "DESIGN.md 4/C06")
 add("C07", "exploration", "stress-generated concurrent histories (rapid-drawn plans) decided by an exact linearizability checker for the counter specification, half of the runs under the Go race detector; exhaustive sequential sweep over all start values (thorough)",
-    "Plans (goroutines, op mix, yield pattern, GOMAXPROCS, start value) are drawn by rapid, executed against the real sequencer with invocation/response stamps, and the whole history is decided exactly (greedy with exchange argument; the checker is self-tested on illegal histories). Sequential sweeps check value order and RollOverCount = zeros issued after every call; random sequencers must start below 2^15.",
+    "Plans (goroutines, op mix, yield pattern, GOMAXPROCS, start value) are drawn by rapid, executed against the real sequencer with invocation/response stamps, and the whole history is decided exactly (greedy with exchange argument; the checker is self-tested on illegal histories). Sequential sweeps check value order and RollOverCount = zeros issued after every call; random sequencers must start below 2^15, survive concurrent first calls and two wraps; the sequencer is also driven through a Packetizer, sequentially and concurrently with direct callers.",
     "Interleavings are chosen by the Go scheduler, not enumerated: absence of a violation speaks only for the schedules that occurred. The race detector only sees races on executed paths.",
     "DESIGN.md 4/C07")
 
